@@ -17,10 +17,13 @@ class C12(vlib.Spec):
                 "C12_unzip_fixed_terminates", "C12_demux_fixed", "C12_demux_fixed_terminates",
                 "C12_compose_forwarding", "C12_compose_map", "C12_compose_filter", "C12_compose_flat_map",
                 "C12_compose_base", "C12_pipeline_map_flatmap_filter",
+                "C12_stage_accumulate", "C12_stage_sort", "C12_stage_keyed", "C12_stage_persist",
+                "C12_stage_resolve_blocking", "C12_stage_fanout", "C12_stage_unzip", "C12_stage_for_each",
+                "C12_accumulate", "C12_pipeline_filter_fanout_fold", "C12_resolve_waker_refuted",
                 "C12_compose_flat_map_over_fanout_refuted"]
     crate, group, binary = "h_push", "light", "h_push"
     shrink_rounds = 20
-    level = "other"
+    level = "proof"
     imports = "From Coq Require Import List NArith.\nImport ListNotations.\nFrom HV Require Import Push.Model Push.Run."
     trusted_base = ["coqc 8.16.1 kernel (vm_compute used for case evaluation only)",
                     "hand transcription of dfir_pipes/src/push/*.rs into coq/theories/Push/Model.v",
